@@ -257,6 +257,24 @@ pub fn suite_clirt(dir: &str, seed: u64, thorough: bool, st: &mut Stats) {
             st.count("clirt/highest-levels");
             c
         } else if !big && i % 6 == 5 { match crate::archive::equal_size_case(&mut rng) { Some(c) => { st.count("clirt/equal-size-chunk"); c } None => gen_cli_case(&mut rng, false) } }
+                else if !big && i % 6 == 2 {
+                    // stretches of incompressible and of compressible data, many small chunks, a real codec: whether a
+                    // chunk is stored compressed is a matter of that chunk alone, whatever was stored before it and
+                    // however far the pipeline runs ahead (the second compress below uses other buffering)
+                    let mut c = gen_cli_case(&mut rng, false);
+                    c.cfg = Cfg { algo: *rng.pick(&['R', 'B']), bits: 8, min: 128, max: 2048, win: 16 };
+                    c.comp = Some((*rng.pick(&[3u32, 2, 1]), 3));
+                    let words: Vec<Vec<u8>> = (0..40).map(|_| (0..rng.range(2, 9)).map(|_| b"etaoinshrdlu "[rng.below(13) as usize]).collect()).collect();
+                    let mut v: Vec<u8> = vec![];
+                    for part in 0..4 {
+                        let l = rng.range(12_000, 40_000) as usize;
+                        if part % 2 == 0 { for _ in 0..l { v.push(rng.next() as u8); } }
+                        else { let e = v.len() + l; while v.len() < e { let w: &Vec<u8> = &words[rng.below(words.len() as u64) as usize]; v.extend_from_slice(w); } }
+                    }
+                    c.src = v;
+                    st.count("clirt/mixed-compressibility");
+                    c
+                }
                 else { gen_cli_case(&mut rng, big) };
         let s = Scn::new("rt", i as u64);
         s.write("src.bin", &c.src);
